@@ -252,6 +252,13 @@ def correspondence_step(rep, cases, what):
             continue
         n += 1
         rep.traces += 1
+        if (c.head or "").startswith("panic") and not (c.mhead or "").startswith("panic"):
+            # the walk itself is the failing input: a panic unwinds out of the iterator, no error ITEM is produced for
+            # whatever went wrong and nothing after it is delivered (C05 for walks, C20 for faults)
+            rep.stats["walk-panics"] += 1
+            rep.violation("oracle", "the walk panics (%s) where the model of the committed code yields items: no error item is produced and nothing after that point is delivered" % c.head[:80],
+                          c.describe(), impl=c.head[:200], model=(c.mf.get("items", c.mhead) or "")[:400])
+            continue
         if not corresponds(c):
             rep.stats["correspondence-broken"] += 1
             rep.violation("correspondence", "walk: ordered items and filter logs of the real walk vs the walk model (%s)" % what, c.describe(),
